@@ -2,7 +2,7 @@
    `eval` mirrors the dispatch of the Python operators (kind tests, shape guards, which
    construction is used); `deval` is the dense specification of the same expression. *)
 From Coq Require Import List Arith Bool ZArith.
-From TT Require Import RingSig SumN Mat Dense Core Arith MatOps.
+From TT Require Import RingSig SumN Mat Dense Core Arith MatOps Reduce.
 Import ListNotations.
 
 (* scalar operand kinds, as the Python dispatch sees them *)
@@ -13,7 +13,8 @@ Inductive errc := EShape | ERank | ETypes | EArgs | ENotImpl | ETorch | EPyType 
 
 Inductive opn :=
   | OAdd | OSub | OMul | ONeg | OPos | ORAdd | ORSub | ORMul | ODiv | OKron | OOnes | OZeros | ORank1
-  | OMatmul | OTr | OEye | OForward.
+  | OMatmul | OTr | OEye | OForward
+  | ODot | ONorm2 | OSum | OBilinear.
 
 Section Expr.
 Context {R : Type} {RO : RingOps R}.
@@ -63,8 +64,46 @@ Definition matmul_dispatch (a b : val) : val :=
   | _, _ => VErr EModel
   end.
 
+Definition scalar_d (s : R) : val := VD (mkD [] (fun _ => s)).
+(* a TT result that collapsed to a single 1x1x1 core is returned as a 0-d tensor *)
+Definition squeeze_tt (x : tt R) : val :=
+  match x with
+  | [c] => if Nat.eqb (r0 c * nn c * r1 c) 1 then scalar_d (e3 c 0 0 0)%nat else VT x
+  | _ => VT x
+  end.
+Definition squeeze_ttm (x : ttm R) : val :=
+  match x with
+  | [c] => if Nat.eqb (q0 c * mm c * nm c * q1 c) 1 then scalar_d (e4 c 0 0 0 0)%nat else VM x
+  | _ => VM x
+  end.
+Definition all_lt (l : list nat) (n : nat) : bool := forallb (fun i => Nat.ltb i n) l.
+
 Definition apply_op (o : opn) (args : list val) (ia : list (list nat)) : val :=
   match o, args with
+  | ODot, [VT a; VT b] =>
+      match ia with
+      | [] => if eqb_ln (shape a) (shape b) then scalar_d (dot_full a b) else VErr EShape
+      | [axis] => if (length a <? length b)%nat then VErr EShape else squeeze_tt (dot_axis a b axis)
+      | _ => VErr EModel
+      end
+  | ODot, [VM _; _] | ODot, [_; VM _] => VErr ENotImpl
+  | ONorm2, [VT x] => scalar_d (norm2 x)
+  | ONorm2, [VM x] => scalar_d (norm2_4 x)
+  | OSum, [VT x] =>
+      match ia with
+      | [] => scalar_d (sum_all x)
+      | [index] => if all_lt index (length x) then squeeze_tt (sum_modes x index) else VErr EArgs
+      | _ => VErr EModel
+      end
+  | OSum, [VM x] =>
+      match ia with
+      | [] => scalar_d (sum_all4 x)
+      | [index] => if all_lt index (length x) then squeeze_ttm (sum_modes4 x index) else VErr EArgs
+      | _ => VErr EModel
+      end
+  | OBilinear, [VT x; VM A; VT y] =>
+      if eqb_ln (shape x) (shapeM A) && eqb_ln (shape y) (shapeN A) then scalar_d (bilinear_form x A y)
+      else VErr EShape
   | OAdd, [VM x; VM y] => ttm_binop add4 x y
   | OSub, [VM x; VM y] => ttm_binop sub4 x y
   | OMul, [VM x; VM y] => ttm_binop mul4 x y
@@ -122,6 +161,12 @@ Definition dapply_op (o : opn) (args : list val) (ia : list (list nat)) : val :=
   | OTr, [VD A], [[d]] => VD (dtranspose d A)
   | OForward, [VD W; VD bias; VD X], [[d]] => VD (dmap2 radd (dmatvec_batch d W X) bias)
   | OEye, [], [ns] => VD (deye ns)
+  | ODot, [VD a; VD b], [] => VD (ddot a b)
+  | ODot, [VD a; VD b], [axis] => VD (ddot_axis a b axis)
+  | ONorm2, [VD a], _ => VD (ddot a a)
+  | OSum, [VD a], [] => VD (dsum_all a)
+  | OSum, [VD a], [index] => VD (dsum_modes a index)
+  | OBilinear, [VD x; VD A; VD y], _ => VD (dbilinear x A y)
   | _, _, _ =>
   match o, args with
   | OAdd, [VD a; VD b] => VD (dmap2 radd a b)
